@@ -1323,6 +1323,26 @@ impl StepMode {
                 one(&[p0, p1, w2 as u16, rng.u16() & 0x00ff, rng.u16()], rng, &mut idx);
             }
         }
+        // (d) the three-word families with an operand that EXISTS: after 0100 78r0 / 0140 78r0 every third word with high byte 6A / 6B
+        //     (the load / store tag and the register field live there), base register in on-chip RAM or DRAM and a small displacement,
+        //     so that a wrongly accepted encoding executes instead of failing on an unmapped operand
+        for &p0 in &[0x0100u16, 0x0140] {
+            for r in [1u16, 5, 7] {
+                for w2 in (0x6a00u32..=0x6bff).chain([0x6900u32, 0x6d20, 0x6f20, 0x7820, 0x6b21, 0x6ba1].into_iter()) {
+                    idx += 1;
+                    if !ctx.mine(idx) {
+                        continue;
+                    }
+                    let mut c = CaseB::new();
+                    c.er = Self::addr_regs(rng);
+                    c.er[r as usize] = if rng.chance(1, 2) { 0xffc100 + 4 * rng.below(64) as u32 } else { 0x420000 + 4 * rng.below(64) as u32 };
+                    c.ccr = rng.u8();
+                    c.pc = 0xffc800 + 2 * rng.below(64) as u32;
+                    c.put_words(c.pc, &[p0, 0x7800 | (r << 4), w2 as u16, 0x0000, (rng.u16() & 0x3c)]);
+                    emit(c.line());
+                }
+            }
+        }
     }
 
     /// C06: interrupt entry for every vector, TRAPA, and entry + RTE round trips (nested)
